@@ -27,6 +27,20 @@ BoxSort dense index, SpatialHash chains with table sizes 1 and 7, DictBoxSort,
 CellIndexing packed sorted keys with sufficient bit widths).
 
   `cell rs=<rat> tiny=<rat> H h=<rl> H h=<rl> …`  answers `cs=<rat> hmin=<rat|none>`.
+
+  `tree rs=<rat> T <node> S x=… y=… z=… h=… D x=… y=… z=… h=… D …`
+
+where `<node>` is the preorder dump of a REAL octree (exact rational values of its doubles):
+`L <xmin> <ymin> <zmin> <hmax> <length> <pids|_>` for a leaf,
+`N <xmin> <ymin> <zmin> <hmax> <length> <k>` followed by its `k` non-NULL children for an inner
+node; `S` is the source array the tree was built from, each `D` a destination array.  Answers
+
+  `inv=<ok|BAD> nodup=<ok|BAD> all=<ok|BAD> query=<ok|BAD> nodes=<n> npids=<n>`
+
+`inv` = `Tree.invB` (the hypothesis `TreeInv` of `tree_query_exact`, see `invB_sound`), `nodup`
+and `all` = the other two hypotheses (leaf index lists hold every source index exactly once),
+`query` = the model's traversal of this tree returns the brute-force list (as a set) for every
+destination particle.
 -/
 namespace PysphVerif.Driver.C01
 open PysphVerif.Wire PysphVerif.Nnps
@@ -157,6 +171,47 @@ def handleQ (self : Bool) (rs tiny : Rat) (arrs : List (List (Pt Rat))) : String
       " store=" ++ (if storeOk then "ok" else "BAD") else "") ++
     (if blocks.isEmpty then "" else " " ++ " ".intercalate blocks)
 
+mutual
+/-- preorder parser with fuel -/
+def parseTreeF : Nat → List String → Option (Tree Rat × List String)
+  | 0, _ => none
+  | f + 1, tag :: x :: y :: z :: hm :: len :: a :: rest =>
+    match parseRat? x, parseRat? y, parseRat? z, parseRat? hm, parseRat? len with
+    | some x, some y, some z, some hm, some len =>
+      if tag = "L" then
+        (parseList? parseNat? a).map (fun ids =>
+          (Tree.leaf { x := x, y := y, z := z, h := hm } len ids, rest))
+      else if tag = "N" then
+        match parseNat? a with
+        | some k =>
+          (parseChildrenF f k rest).map (fun (ch, r) =>
+            (Tree.node { x := x, y := y, z := z, h := hm } len ch, r))
+        | none => none
+      else none
+    | _, _, _, _, _ => none
+  | _, _ => none
+def parseChildrenF : Nat → Nat → List String → Option (List (Tree Rat) × List String)
+  | _, 0, rest => some ([], rest)
+  | 0, _ + 1, _ => none
+  | f + 1, k + 1, toks =>
+    match parseTreeF f toks with
+    | some (t, r) => (parseChildrenF f k r).map (fun (ts, r') => (t :: ts, r'))
+    | none => none
+end
+
+def okBad (b : Bool) : String := if b then "ok" else "BAD"
+
+def handleTree (rs : Rat) (t : Tree Rat) (src : List (Pt Rat)) (dsts : List (List (Pt Rat))) : String :=
+  let pids := Tree.pids t
+  let inv := Tree.invB src t
+  let nodup := decide (sortNat pids).Nodup
+  let all := (List.range src.length).all (fun j => pids.contains j)
+  let query := dsts.all (fun dst => dst.all (fun q =>
+    decide (sortNat (treeNbrs rs src q t) = bruteForce rs src q)))
+  "inv=" ++ okBad inv ++ " nodup=" ++ okBad nodup ++ " all=" ++ okBad all ++
+    " query=" ++ okBad query ++ " nodes=" ++ toString (Tree.size t) ++
+    " npids=" ++ toString pids.length
+
 def handle (line : String) : String :=
   match tokens line with
   | cmd :: rest =>
@@ -179,6 +234,16 @@ def handle (line : String) : String :=
          "cs=" ++ showRat (cellSize rs tiny hss) ++ " hmin=" ++
            (match hminScaled rs hss with | some m => showRat m | none => "none")
        | _, _, _ => "bad-op")
+    else if cmd = "tree" then
+    (match groups "T" rest with
+     | [hd, body] =>
+       (match (lookup (kvs hd) "rs") >>= parseRat?, groups "S" body with
+        | some rs, [ttoks, arrtoks] =>
+          (match parseTreeF (ttoks.length + 1) ttoks, (groups "D" arrtoks).mapM parseArr with
+           | some (t, []), some (src :: dsts) => handleTree rs t src dsts
+           | _, _ => "bad-op")
+        | _, _ => "bad-op")
+     | _ => "bad-op")
     else "bad-op"
   | _ => "bad-op"
 
